@@ -779,10 +779,10 @@ func c14Check(cp *c14Case, e *c14Env) (fail *vlib.Failure, herr error) {
 		return vlib.Failf("DriverInit stopped with error %q (every listed table is mappable; bad checksums must be skipped)", kerr.Message), nil
 	}
 
-	want := map[string]uintptr{}   // signature -> address of every table that must be registered
-	report := map[string]bool{}    // signatures that must be reported as corrupted
-	known := map[uintptr]string{}  // address -> description
-	allSigs := map[string]bool{}   // every signature of the image
+	want := map[string]uintptr{}  // signature -> address of every table that must be registered
+	report := map[string]bool{}   // signatures that must be reported as corrupted
+	known := map[uintptr]string{} // address -> description
+	allSigs := map[string]bool{}  // every signature of the image
 	for i := range e.blobs {
 		b := &e.blobs[i]
 		known[e.addr(b)] = fmt.Sprintf("table %q", b.name)
@@ -1447,21 +1447,6 @@ func c14GenFadt(t *rapid.T, st *vlib.Stats, c *c14Case, tb *c14Table, openB bool
 	if c.High {
 		kind = "only64"
 	}
-	if openB {
-		// every candidate agrees, so the expectation does not depend on which one is read
-		st.Exclude("F-C14b: FADT whose DSDT pointer candidates (bytes 40 / 140 / 152) differ (constructed around)")
-		p.P40 = "dsdt"
-		if total >= 148 {
-			p.P140 = "dsdt"
-		}
-		if total >= 160 {
-			p.P152 = "dsdt"
-		} else if c.RootRev >= 2 {
-			st.Exclude("F-C14b: FADT shorter than 160 bytes below a root table of revision >= 2 (constructed around)")
-			c.RootRev = uint8(rapid.IntRange(0, 1).Draw(t, "rootrevlow"))
-		}
-		return
-	}
 	switch kind {
 	case "both":
 		p.P40, p.P140 = "dsdt", "dsdt"
@@ -1481,6 +1466,29 @@ func c14GenFadt(t *rapid.T, st *vlib.Stats, c *c14Case, tb *c14Table, openB bool
 	}
 	// byte 152 is part of X_PM1a_EVT_BLK in the ACPI layout: unrelated content
 	p.P152 = rapid.SampledFrom([]string{"", "", "zero", "dsdt"}).Draw(t, "p152")
+	if total < 160 {
+		p.P152 = ""
+	}
+	if !openB {
+		return
+	}
+	// F-C14b is open: keep only FADTs in which every candidate agrees, so that the
+	// expectation does not depend on which one the driver reads
+	if !c14PtrsAgree(tb) {
+		st.Exclude("F-C14b: FADT whose DSDT pointer candidates (bytes 40 / 140 / 152) differ (constructed around: all made equal)")
+		p.P40, p.P140, p.P152 = "dsdt", "", ""
+		if total >= 148 {
+			p.P140 = "dsdt"
+		}
+		if total >= 160 {
+			p.P152 = "dsdt"
+		}
+	}
+	if total < 160 && c.RootRev >= 2 {
+		// the driver would read byte 152, which lies beyond the table
+		st.Exclude("F-C14b: FADT shorter than 160 bytes below a root table of revision >= 2 (constructed around: revision lowered)")
+		c.RootRev = uint8(rapid.IntRange(0, 1).Draw(t, "rootrevlow"))
+	}
 }
 
 // ---------------------------------------------------------------------------
